@@ -146,7 +146,7 @@ func doSelect(cases []*selCase, hasDefault bool, what string) (int, interface{},
 			pt := p.t
 			dequeue(pt)
 			pt.served, pt.selIdx, pt.rval, pt.rok = true, p.idx, c.val, true
-			pt.h = mix(pt.h, cs.v, 300)
+			pt.h = mix(pt.h, S.ver(&cs.v), 300)
 		} else {
 			cs.buf = append(cs.buf, c.val)
 		}
@@ -161,7 +161,7 @@ func doSelect(cases []*selCase, hasDefault bool, what string) (int, interface{},
 			dequeue(pt)
 			cs.buf = append(cs.buf, p.val)
 			pt.served, pt.selIdx = true, p.idx
-			pt.h = mix(pt.h, cs.v, 301)
+			pt.h = mix(pt.h, S.ver(&cs.v), 301)
 		}
 		return c.idx, v, true
 	}
@@ -170,7 +170,7 @@ func doSelect(cases []*selCase, hasDefault bool, what string) (int, interface{},
 		pt := p.t
 		dequeue(pt)
 		pt.served, pt.selIdx = true, p.idx
-		pt.h = mix(pt.h, cs.v, 302)
+		pt.h = mix(pt.h, S.ver(&cs.v), 302)
 		return c.idx, p.val, true
 	}
 	return c.idx, nil, false // closed and drained
